@@ -183,3 +183,22 @@ def specRun (fl : RFlags) : List Posting → List IterOp → List (Option (Optio
     some (r.map (decoded fl)) :: specRun fl L' ops
 
 end Ice.Model.Iter
+
+namespace Ice.Model.Iter
+
+/-- `OptimizablePostingsIterator.ReplaceActual(abm)` (posting.go:691-696):
+      `i.ActualBM = abm; i.Actual = abm.Iterator()`.
+    The method assigns exactly these two fields.  `Actual` becomes a fresh cursor standing before
+    the first element of `abm`; `all`, `currChunk` and both chunk readers keep their state.  The
+    model field `clean` is the Go test `i.postings.postings == i.ActualBM` (pointer comparison),
+    so it is a function of `ActualBM`: for a bitmap object other than the list's own bitmap the
+    test is false from now on.  (For the list's own bitmap object see `replaceActualSameObj`.) -/
+def replaceActual (i : It) (abm : List Nat) : It := { i with act := abm, clean := false }
+
+/-- `ReplaceActual(abm)` when `abm` IS the object `i.postings.postings` (a caller can obtain that
+    pointer from `ActualBitmap()` of an iterator created without exclusion): the pointer test
+    `i.postings.postings == i.ActualBM` is true afterwards whatever it was before, and the fresh
+    cursor runs over all document numbers of the list. -/
+def replaceActualSameObj (i : It) : It := { i with act := i.P.map (·.doc), clean := true }
+
+end Ice.Model.Iter
